@@ -57,6 +57,14 @@ type Case struct {
 	// study ("B", End = unlock after HoldU) is acquired "after" that renewal was fired, shortly "before" it is
 	// due, or "first" (before A is locked at all). B's lease must stay in force, A's Unlock must not panic.
 	Two string `json:"two,omitempty"`
+	// scenario (viii), an earlier tenure of the SAME Locker object: before the tenure under study the holder's Locker is
+	// locked, held until its PreK-th renewal call is in flight (applied by the store, the answer held back by the gate)
+	// and unlocked; then "rel-lock": the answer is delivered (the finished tenure arms its one left-over attempt) and the
+	// Locker is locked again at once, or "lock-rel": the Locker is locked again and the answer arrives afterwards. The
+	// second tenure is the tenure under study (End = unlock after HoldU >= 3 periods): its lease must stay in force, its
+	// renewals must be a trace of the model (never early, one chain), nothing of the earlier tenure may change the record.
+	Pre  string `json:"pre,omitempty"`
+	PreK int    `json:"pre_k,omitempty"`
 	Jit   uint64 `json:"jit"`
 }
 
@@ -181,6 +189,29 @@ func runScenario(cs Case) (o *outcome) {
 		}
 	}
 
+	if cs.Pre != "" {
+		c.mu.Lock()
+		c.pre, c.preParkK = true, cs.PreK
+		c.mu.Unlock()
+		if holder.LockWithCtx(ctx) != nil {
+			o.fatal = "the holder could not acquire the lock on an empty store (earlier tenure)"
+			return
+		}
+		select {
+		case <-c.preParked:
+		case <-time.After(time.Duration(cs.PreK+6)*ttl + 2*time.Second):
+			o.contFail = true // the renewal never came: nothing to race with (disturbed run)
+		}
+		holder.Unlock() // a panic in here ends the run as fatal
+		c.mu.Lock()
+		c.pre = false
+		c.mu.Unlock()
+		if cs.Pre == "rel-lock" {
+			c.letGoPre()
+			// let the callback of the finished tenure go on (it arms its left-over attempt)
+			time.Sleep(time.Millisecond + time.Duration(prng.New(cs.Jit, "C05pre", 0).Intn(int(ttl/16)+1)))
+		}
+	}
 	okAcq := false
 	if cs.Acq == "lock" {
 		okAcq = holder.LockWithCtx(ctx) == nil
@@ -192,6 +223,10 @@ func runScenario(cs Case) (o *outcome) {
 		return
 	}
 	acquiredAt := time.Now()
+	if cs.Pre == "lock-rel" {
+		time.Sleep(time.Duration(prng.New(cs.Jit, "C05pre", 1).Intn(int(ttl/8) + 1)))
+		c.letGoPre()
+	}
 	if cs.Two != "" {
 		if cs.Two == "first" {
 			if lA.LockWithCtx(ctx) != nil {
@@ -682,6 +717,9 @@ func estimate(cs Case) time.Duration {
 	if cs.Two != "" {
 		d += time.Duration(cs.EndK) * ttl / 2
 	}
+	if cs.Pre != "" {
+		d += time.Duration(cs.PreK) * ttl / 2
+	}
 	return d + 4*ttl
 }
 
@@ -815,6 +853,12 @@ func generate(seed uint64, thorough bool) []Case {
 			}
 			// (vi) like (iv) "before", then the same Locker is locked again, its Create in flight
 			add(Case{TTLms: ttl, Acq: acq(), End: "race_before", EndK: r.Range(1, 2), Relock: true})
+			// (viii) an earlier tenure of the same Locker object, unlocked with a renewal in flight; the second tenure is studied
+			for _, pre := range []string{"rel-lock", "lock-rel"} {
+				if thorough || (round+ttl/40)%2 == 0 || pre == "rel-lock" {
+					add(Case{TTLms: ttl, Acq: acq(), End: "unlock", HoldU: r.Range(72, 110), Pre: pre, PreK: r.Range(1, 2)})
+				}
+			}
 			// solo stream (a process whose timer queue holds only this scenario's futures): (iv) again, and
 			// (vii) two holders: lock A unlocked with its renewal in flight while lock B stays held
 			if !big && (thorough || round < 2) {
@@ -939,6 +983,9 @@ func main() {
 		}
 		if cs.Cont != "" {
 			s.Count("new-holder-after-unlock:" + cs.End + "/" + cs.Cont)
+		}
+		if cs.Pre != "" {
+			s.Count("earlier-tenure-of-the-same-locker:" + cs.Pre)
 		}
 		if cs.Relock {
 			s.Count("same-locker-relocked-after-unlock")
